@@ -522,7 +522,6 @@ def merge_stats(acc, st):
 def check(prop, tier):
     t0 = time.time()
     seed = int(os.environ.get('VERIF_SEED', '1'))
-    tier = os.environ.get('VERIF_TIER', tier)
     thorough = tier == 'thorough'
     prune_cache()
     known_all = load_known()
@@ -791,7 +790,10 @@ def main(argv):
     if prop not in CLAIMED:
         log('property %s is not claimed (see MANIFEST.json not_applicable)' % prop)
         return 2
-    return check(prop, argv[2] if len(argv) > 2 else 'quick')
+    tier = argv[2] if len(argv) > 2 else os.environ.get('VERIF_TIER', 'quick')
+    if tier not in ('quick', 'thorough'):
+        tier = 'quick'
+    return check(prop, tier)
 
 
 if __name__ == '__main__':
